@@ -161,6 +161,9 @@ EXPORT void fft64_vmp_apply_dft_to_dft_ref(const MODULE* module,                
         reim4_save_1blk_to_reim_ref(m, blk_i, vec_output + last_col * nn, mat2cols_output);
       }
     }
+  } else if (row_max == 0) {
+    // no input row: the product is zero
+    memset(vec_output, 0, col_max * nn * sizeof(double));
   } else {
     for (uint64_t col_i = 0; col_i < col_max; col_i++) {
       double* pmat_col = mat_input + col_i * nrows * nn;
